@@ -215,12 +215,14 @@ GetWithKw(sid, kw) ==
 (*   or simple typing) -> typed narrowing -> prune.                        *)
 (* search = [segs : Seq(Seq(token)), query : Seq(<<key, Seq(token)>>)]     *)
 AliasSet(alts) == UNION {AliasOf(alts[i]) : i \in DOMAIN alts}
-LeafQueryKey == "ext"     \* the alias rule for filters applies to the key literally named "ext" (F15)
+\* the alias rule for filters applies to the configured leaf keys (the demo configuration's "ext")
+LeafQueryKeys == {Raw.leaf[i].key : i \in DOMAIN Raw.leaf}
+IsLeafQueryKey(k) == k \in LeafQueryKeys
 Flat(search) ==
   LET n == Len(search.segs)
       segsets == [i \in 1..n |-> IF i = n THEN AliasSet(search.segs[i]) ELSE ToSet(search.segs[i])]
       qsets == [i \in DOMAIN search.query |->
-                   {<<search.query[i][1], v>> : v \in (IF search.query[i][1] = LeafQueryKey
+                   {<<search.query[i][1], v>> : v \in (IF IsLeafQueryKey(search.query[i][1])
                                                         THEN AliasSet(search.query[i][2]) ELSE ToSet(search.query[i][2]))}]
   IN {[segs |-> s, pairs |-> q] : s \in SetProd(segsets), q \in SetProd(qsets)}
 
@@ -278,7 +280,7 @@ Denote(search) ==
       alts == {[segs |-> s, pairs |-> q] :
                   s \in SetProd([i \in 1..n |-> IF i = n THEN AliasSet(search.segs[i]) ELSE ToSet(search.segs[i])]),
                   q \in SetProd([i \in DOMAIN search.query |->
-                        {<<search.query[i][1], v>> : v \in (IF search.query[i][1] = LeafQueryKey
+                        {<<search.query[i][1], v>> : v \in (IF IsLeafQueryKey(search.query[i][1])
                                 THEN AliasSet(search.query[i][2]) ELSE ToSet(search.query[i][2]))}])}
       rootTyped(a) == LET sp == {p \in StarPos(a.segs) : p > 1}
                           fs == FirstStar(a.segs)
